@@ -20,11 +20,13 @@ pub struct GenCfg {
     pub expect: u32,
     /// never generate a body larger than this
     pub max_body: usize,
+    /// construct only requests that parse without error (no over-limit lengths, no over-long lines)
+    pub error_free: bool,
 }
 
 impl GenCfg {
     pub fn new(b: usize, limit: usize) -> GenCfg {
-        GenCfg { b, limit, corrupt: 10, max_reqs: 5, big: true, expect: 40, max_body: 70000 }
+        GenCfg { b, limit, corrupt: 10, max_reqs: 5, big: true, expect: 40, max_body: 70000, error_free: false }
     }
 }
 
@@ -104,7 +106,7 @@ fn header_line(s: &mut Src, cfg: &GenCfg, notes: &mut Notes, out: &mut Vec<u8>) 
         4 => ("Server".into(), "whatever".into()),
         5 => {
             let v = ["gzip", "identity", "gzip, deflate", "*", "identity;q=0", "*;q=0", "*;q=0, identity", "", "gzip , identity;q=0"];
-            let i = if cfg.corrupt > 0 { s.weighted(&[10, 4, 3, 2, 1, 1, 1, 1, 1]) } else { s.weighted(&[10, 4, 3, 2]) };
+            let i = if cfg.corrupt > 0 && !cfg.error_free { s.weighted(&[10, 4, 3, 2, 1, 1, 1, 1, 1]) } else { s.weighted(&[10, 4, 3, 2]) };
             if i >= 4 {
                 notes.add("hdr_accept_encoding_edge");
             }
@@ -114,7 +116,8 @@ fn header_line(s: &mut Src, cfg: &GenCfg, notes: &mut Notes, out: &mut Vec<u8>) 
             // pad header: total line length (incl CRLF) targeted around the window
             let target = if cfg.big && s.chance(100) {
                 let d = s.range(0, 12);
-                (cfg.b + 4).saturating_sub(d) // b-8 ..= b+4
+                let t = (cfg.b + 4).saturating_sub(d); // b-8 ..= b+4
+                if cfg.error_free { t.min(cfg.b) } else { t }
             } else {
                 s.range(8, cfg.b.min(200))
             };
@@ -179,7 +182,10 @@ pub fn gen_request(s: &mut Src, cfg: &GenCfg, notes: &mut Notes, out: &mut Vec<u
         4 => {
             // long URI: request line length targeted around the window
             let d = s.range(0, 12);
-            let target = (b + 4).saturating_sub(d);
+            let mut target = (b + 4).saturating_sub(d);
+            if cfg.error_free {
+                target = target.min(b);
+            }
             let fixed = method.len() + 1 + 1 + 8 + 2;
             notes.add("uri_long");
             let mut u = vec![b'/'];
@@ -229,7 +235,7 @@ pub fn gen_request(s: &mut Src, cfg: &GenCfg, notes: &mut Notes, out: &mut Vec<u
     let clk = if is_get && !s.chance(60) {
         0
     } else {
-        s.weighted(&[6, 3, 12, if cfg.big { 5 } else { 0 }, if cfg.big { 4 } else { 0 }, 4, if cfg.corrupt > 0 { 3 } else { 0 }])
+        s.weighted(&[6, 3, 12, if cfg.big { 5 } else { 0 }, if cfg.big { 4 } else { 0 }, if cfg.error_free { 0 } else { 4 }, if cfg.corrupt > 0 && !cfg.error_free { 3 } else { 0 }])
     };
     let mut declared: usize = 0;
     let cl_text: Option<String> = match clk {
